@@ -417,35 +417,43 @@ Proof. exact msave_backward_refuted. Qed.
 (** * Round 5: the static-prop format is chosen by the READER of an earlier file and used by the WRITER of the next *)
 (** Generic over the tables generated from [_lmp_read_props] / [_lmp_write_props] (for every BSP version, header number,
     record size and format named beforehand: what the reader of an empty lump records, what the reader of a lump with records
-    records / decodes with, what the writer writes in).  A fresh object reads a file whose static-prop lump is EMPTY; props are
-    assigned; the object saves (the header number stays, the records have the size of the format written in); a fresh object
-    reads that file.  If the tables pass [pv_from_empty_ok]: whatever format [st] the first reader settled on, the writer
-    writes in a format [w] and the second reader records [w], decodes with [w], and runs the same field ladder. *)
+    records / decodes with, what the writer writes in and which header number it sets).  A fresh object reads a file whose
+    static-prop lump is EMPTY; props are assigned; the object saves (the records have the size of the format written in, the
+    header number is the one the writer sets, else the one of the file); a fresh object reads that file.  If the tables pass
+    [pv_from_empty_ok]: whatever format [st] the first reader settled on, the writer writes in a format [w] and the second
+    reader records [w], decodes with [w], and runs the same field ladder. *)
 Theorem c11_prop_version_from_empty_lump : forall c, pv_from_empty_ok c = true ->
   forall bv h, In bv (c_bsp c) -> In h pv_hdrs ->
   forall st, read_empty c bv h 0%N = Some (Some st) ->
-  exists r w lw sz, write_props c st = Some (Some (r, w, lw)) /\ size_of c w = Some sz /\
-                    read_sized c bv h sz 0%N = Some (Some (w, w, lw)).
+  exists r w lw h' sz, write_props c st h = Some (Some (r, w, lw, h')) /\ size_of c w = Some sz /\
+                       read_sized c bv h' sz 0%N = Some (Some (w, w, lw)).
 Proof. exact from_empty_stable. Qed.
 (** ... and there is no third outcome: the empty lump is rejected with an error, or a format is recorded. *)
 Theorem c11_prop_version_empty_lump_total : forall c, pv_from_empty_ok c = true ->
   forall bv h, In bv (c_bsp c) -> In h pv_hdrs ->
   read_empty c bv h 0%N = Some None \/ exists st, read_empty c bv h 0%N = Some (Some st).
 Proof. exact from_empty_total. Qed.
-(** The caller names the format [m]: it is the format written; a fresh reader settles on a format [d] with the header number
-    and the record size of [m], records what it decodes with and - if [d] is [m] - runs the writer's ladder; named to the reader,
-    [m] is believed.  (Two members may share the pair: the file cannot say which it holds, see [c11_prop_version_detected].) *)
+(** Props assigned to an object that NEVER read the lump (no format recorded), whatever header number the opened file has:
+    the writer falls back to a format [w] and the fresh reader of the saved file records and decodes with [w]. *)
+Theorem c11_prop_version_never_read : forall c, pv_never_read_ok c = true ->
+  forall bv h, In bv (c_bsp c) -> In h pv_hdrs ->
+  exists r w lw h' sz, write_props c 0%N h = Some (Some (r, w, lw, h')) /\ size_of c w = Some sz /\
+                       read_sized c bv h' sz 0%N = Some (Some (w, w, lw)).
+Proof. exact never_read_stable. Qed.
+(** The caller names the format [m]: it is the format written, under its own header number; a fresh reader settles on a format
+    [d] with the header number and the record size of [m], records what it decodes with and - if [d] is [m] - runs the writer's
+    ladder; named to the reader, [m] is believed.  (Two members may share the pair: the file cannot say which it holds.) *)
 Theorem c11_prop_version_named : forall c, pv_named_ok c = true ->
   forall bv m, In bv (c_bsp c) -> (1 <= m <= N.of_nat (List.length (c_members c)))%N ->
   exists lw h sz d ld,
-    write_props c m = Some (Some (m, m, lw)) /\ hdr_of c m = Some h /\ size_of c m = Some sz /\
+    hdr_of c m = Some h /\ size_of c m = Some sz /\ write_props c m h = Some (Some (m, m, lw, h)) /\
     read_sized c bv h sz 0%N = Some (Some (d, d, ld)) /\ (d = m -> ld = lw) /\ hdr_of c d = Some h /\ size_of c d = Some sz /\
     read_sized c bv h sz m = Some (Some (m, m, lw)).
 Proof. exact named_detected. Qed.
 (** When no other member has the (header number, record size) of [m], the fresh reader finds [m] itself. *)
 Theorem c11_prop_version_detected : forall c, pv_named_ok c = true ->
   forall bv m, In bv (c_bsp c) -> (1 <= m <= N.of_nat (List.length (c_members c)))%N -> unique_pair c m = true ->
-  exists lw h sz, write_props c m = Some (Some (m, m, lw)) /\ hdr_of c m = Some h /\ size_of c m = Some sz /\
+  exists lw h sz, hdr_of c m = Some h /\ size_of c m = Some sz /\ write_props c m h = Some (Some (m, m, lw, h)) /\
                   read_sized c bv h sz 0%N = Some (Some (m, m, lw)).
 Proof. exact named_detected_unique. Qed.
 (** The guess for an empty lump stops at the FIRST member with the header number while files with records of that size are
@@ -455,3 +463,10 @@ Theorem c11_prop_version_first_match_refuted :
   hist_from_empty pv_first_match_cfg 20 11 = Some (Some (1, 11, Some (2, 2, 7)))%N /\
   hist_from_empty_ok pv_last_match_cfg 20 11 = true.
 Proof. exact first_match_refuted. Qed.
+(** The writer falls back to format 1 (header number 5, 60 bytes) but leaves the header number of the opened file (10): the
+    fresh reader raises.  A writer that sets the header number passes. *)
+Theorem c11_prop_version_header_left_refuted :
+  hist_never_read_ok pv_header_left_cfg 20 10 = false /\
+  hist_never_read pv_header_left_cfg 20 10 = Some (1, 5, None)%N /\
+  hist_never_read_ok pv_header_set_cfg 20 10 = true.
+Proof. exact header_left_refuted. Qed.
